@@ -27,6 +27,7 @@ type FuncReport struct {
 	Obls       []*Obligation
 	Covers     []string
 	Header     string
+	Opts       []string // contract options that are assumptions (listed in the evidence)
 }
 
 func (x *Exec) addObl(kind, tag, clause string, st *State, goal string, props []string) {
